@@ -55,6 +55,23 @@ type PtrV struct {
 
 func (v *PtrV) vstr() string { return "&" + v.Elem.vstr() }
 
+// NilV: a nil pointer, slice, map, interface or function stored in a map or a list during a fold.
+type NilV struct {
+	T types.Type
+}
+
+func (v *NilV) vstr() string { return "nil" }
+
+// RefV: a pointer into the memory of the fold that made it (a pointer stored in a map or a list during a fold); only
+// meaningful within that fold.
+type RefV struct {
+	Addr *faddr
+}
+
+func (v *RefV) vstr() string {
+	return fmt.Sprintf("&cell%p%s", v.Addr.base, strings.Join(v.Addr.path, "."))
+}
+
 // FuncV: a function value named in a table (a package-level function or a method expression T.m; the latter takes the
 // receiver as its first argument, as the method's SSA function does).
 type FuncV struct {
